@@ -23,6 +23,8 @@ import (
 	"github.com/cosmos/cosmos-sdk/store/prefix"
 	sdk "github.com/cosmos/cosmos-sdk/types"
 	"github.com/ethereum/go-ethereum/common"
+	authtypes "github.com/cosmos/cosmos-sdk/x/auth/types"
+	"github.com/ExocoreNetwork/exocore/utils"
 
 	assetskeeper "github.com/ExocoreNetwork/exocore/x/assets/keeper"
 	assetstypes "github.com/ExocoreNetwork/exocore/x/assets/types"
@@ -46,12 +48,18 @@ type c03World struct {
 	assetIDs  []string
 	avs       string
 	names     []c03Name // long identifier -> short Coq variable
+	// native token: bank-funded accounts as stakers (staker id hex(addr)_0x0), the escrow module account
+	natAccs   [][]byte
+	natIDs    []string
+	natAddr   []byte
+	natID     string
+	poolAddr  sdk.AccAddress
 }
 
 type c03Name struct{ long, short string }
 
 func c03NewWorld() *c03World {
-	env := NewEnv(EnvCfg{Operators: []OperatorCfg{{Deposit: 101}, {Deposit: 100}, {Deposit: 0}}})
+	env := NewEnv(EnvCfg{Operators: []OperatorCfg{{Deposit: 101}, {Deposit: 100}, {Deposit: 0}}, ExtraAccs: 3})
 	w := &c03World{env: env, nVals: 2}
 	w.avs = avstypes.GenerateAVSAddr(avstypes.ChainIDWithoutRevision(env.ChainID))
 	for i, o := range env.Operators {
@@ -83,6 +91,25 @@ func c03NewWorld() *c03World {
 		w.stakerIDs = append(w.stakerIDs, id)
 		w.names = append(w.names, c03Name{id, fmt.Sprintf("s%d", i)})
 	}
+	// native token: registered as a staking asset (as on a real chain, where the slash USD value needs its decimals)
+	w.natAddr = common.HexToAddress(assetstypes.ExocoreAssetAddr).Bytes()
+	w.natID = assetstypes.ExocoreAssetID
+	if err := env.App.AssetsKeeper.SetStakingAssetInfo(env.Ctx, &assetstypes.StakingAssetInfo{
+		AssetBasicInfo: assetstypes.AssetInfo{Name: "Exocore native token", Symbol: "EXO", Address: assetstypes.ExocoreAssetAddr,
+			Decimals: 6, LayerZeroChainID: assetstypes.ExocoreChainLzID, MetaInfo: "native token"},
+		StakingTotalAmount: sdkmath.ZeroInt(),
+	}); err != nil {
+		panic(err)
+	}
+	w.names = append(w.names, c03Name{w.natID, "an"})
+	for i := 0; i < 3 && i < len(env.AccAddrs); i++ {
+		b := env.AccAddrs[i].Bytes()
+		w.natAccs = append(w.natAccs, b)
+		id, _ := assetstypes.GetStakerIDAndAssetID(assetstypes.ExocoreChainLzID, b, nil)
+		w.natIDs = append(w.natIDs, id)
+		w.names = append(w.names, c03Name{id, fmt.Sprintf("n%d", i)})
+	}
+	w.poolAddr = authtypes.NewModuleAddress(delegationtypes.DelegatedPoolName)
 	// the genesis operators' own staker ids appear in the initial dump
 	for i, o := range env.Operators {
 		id, _ := assetstypes.GetStakerIDAndAssetID(101, o.Bytes(), nil)
@@ -142,10 +169,11 @@ const (
 	c03Sidx
 	c03Pidx
 	c03Hold
+	c03Bank
 	c03NStores
 )
 
-var c03Ctor = [c03NStores]string{"CSa", "COa", "CTot", "CDg", "CSl", "CUr", "CSidx", "CPidx", "CHold"}
+var c03Ctor = [c03NStores]string{"CSa", "COa", "CTot", "CDg", "CSl", "CUr", "CSidx", "CPidx", "CHold", "CBank"}
 
 // value terms are kept as closures over the name table so they can be printed with abbreviations
 type c03Dump [c03NStores]map[string]string
@@ -210,6 +238,11 @@ func (w *c03World) dump(ctx sdk.Context, extra []c03Name) c03Dump {
 		}
 		d[c03Hold][string(k)] = cZbig(new(big.Int).SetUint64(n))
 	})
+	// x/bank: base-denom balances of the native stakers (keyed by staker id) and of the escrow module account
+	for i, acc := range w.natAccs {
+		d[c03Bank][w.natIDs[i]] = cZbig(app.BankKeeper.GetBalance(ctx, sdk.AccAddress(acc), utils.BaseDenom).Amount.BigInt())
+	}
+	d[c03Bank][delegationtypes.DelegatedPoolName] = cZbig(app.BankKeeper.GetBalance(ctx, w.poolAddr, utils.BaseDenom).Amount.BigInt())
 	return d
 }
 
@@ -437,6 +470,47 @@ func (r *c03Runner) undelegate(st, as, op int, amt sdkmath.Int, nonce uint64, tx
 	return res
 }
 
+// native token: DelegateTo / UndelegateFrom with the native asset id (what the message server calls per operator):
+// bank account -> escrow module account, and back at completion
+func (r *c03Runner) delegateN(acc, op int, amt sdkmath.Int) string {
+	w := r.w
+	tx := r.newTx()
+	res := r.exec(func(ctx sdk.Context) error {
+		return w.env.App.DelegationKeeper.DelegateTo(ctx, delegationtypes.NewDelegationOrUndelegationParams(
+			assetstypes.ExocoreChainLzID, assetstypes.DelegateTo, w.natAddr, w.ops[op], w.natAccs[acc], amt, r.nextNonce(), tx))
+	})
+	var gev []string
+	if res == "ok" {
+		gev = []string{cApp("GEscIn", r.S(w.natID), cZbig(amt.BigInt()))}
+	}
+	r.record(c03Op{Kind: "DelegateN", Staker: acc, Op: op, Amt: amt.String(), Height: r.ctx.BlockHeight()},
+		cApp("Delegate", r.S(w.natIDs[acc]), r.S(w.natID), r.S(w.opStrs[op]), cZbig(amt.BigInt())), res, gev)
+	return res
+}
+
+func (r *c03Runner) undelegateN(acc, op int, amt sdkmath.Int, nonce uint64, tx common.Hash) string {
+	w := r.w
+	res := r.exec(func(ctx sdk.Context) error {
+		return w.env.App.DelegationKeeper.UndelegateFrom(ctx, delegationtypes.NewDelegationOrUndelegationParams(
+			assetstypes.ExocoreChainLzID, assetstypes.UndelegateFrom, w.natAddr, w.ops[op], w.natAccs[acc], amt, nonce, tx))
+	})
+	r.record(c03Op{Kind: "UndelegateN", Staker: acc, Op: op, Amt: amt.String(), Nonce: nonce, Tx: tx.String(), Height: r.ctx.BlockHeight()},
+		cApp("Undelegate", r.S(w.natIDs[acc]), r.S(w.natID), r.S(w.opStrs[op]), cZbig(amt.BigInt()),
+			cZbig(new(big.Int).SetUint64(nonce)), r.S(tx.String())), res, nil)
+	return res
+}
+
+func (r *c03Runner) positionN(acc, op int) sdkmath.Int {
+	m, err := r.w.env.App.DelegationKeeper.AllDelegatedInfoForStakerAsset(r.ctx, r.w.natIDs[acc], r.w.natID)
+	if err != nil {
+		return sdkmath.ZeroInt()
+	}
+	if v, ok := m[r.w.opStrs[op]]; ok {
+		return v
+	}
+	return sdkmath.ZeroInt()
+}
+
 // genesisLoad: a genesis file containing a deposit that is pending undelegation (see Ledger.v genesis_load)
 func (r *c03Runner) genesisLoad(st, as, op int, amt sdkmath.Int, bn, cn, nonce uint64, tx common.Hash) string {
 	w := r.w
@@ -569,7 +643,12 @@ func (r *c03Runner) holdOp(rk string, inc bool) string {
 	return res
 }
 
+func (r *c03Runner) escrowBal() sdkmath.Int {
+	return r.w.env.App.BankKeeper.GetBalance(r.ctx, r.w.poolAddr, utils.BaseDenom).Amount
+}
+
 func (r *c03Runner) endBlock() {
+	before := r.escrowBal()
 	res := "ok"
 	func() {
 		defer func() {
@@ -581,7 +660,12 @@ func (r *c03Runner) endBlock() {
 	}()
 	h := r.ctx.BlockHeight()
 	r.ctx = r.ctx.WithBlockHeight(h + 1)
-	r.record(c03Op{Kind: "EndBlock", Height: h}, "EndBlock", res, nil)
+	// ghost: what x/bank says left the escrow account in this block end (native undelegations paid out)
+	var gev []string
+	if paid := before.Sub(r.escrowBal()); paid.IsPositive() {
+		gev = []string{cApp("GEscOut", r.S(r.w.natID), cZbig(paid.BigInt()))}
+	}
+	r.record(c03Op{Kind: "EndBlock", Height: h}, "EndBlock", res, gev)
 }
 
 func (r *c03Runner) finish() {
